@@ -160,6 +160,7 @@ type c32Block struct {
 	note   string
 	noBody bool
 	noHdr  bool
+	just   int // justification sent when requested: 0 = what the tree node has, 1 = none, 2 = always (fabricated if needed)
 }
 
 type c32Resp struct {
@@ -210,6 +211,11 @@ func (rp *c32Resp) String(t *vTree) string {
 		if b.note != "" {
 			sb.WriteString("!" + b.note)
 		}
+		if b.just == 2 {
+			sb.WriteString("+J")
+		} else if b.just == 1 {
+			sb.WriteString("-J")
+		}
 	}
 	sb.WriteString("]")
 	return sb.String()
@@ -254,8 +260,11 @@ func (rp *c32Resp) build(t *vTree) (*SyncTaskResult, error) {
 				bd.Body = types.NewBody([]types.Extrinsic{{0xfa, 0xb0}}) // non-empty: an empty body does not survive the wire format
 			}
 		}
-		if rp.fields&messages.RequestedDataJustification != 0 && b.node >= 0 {
+		if rp.fields&messages.RequestedDataJustification != 0 && b.node >= 0 && b.just != 1 {
 			bd.Justification = copyBytesPtr(t.nodes[b.node].just)
+			if bd.Justification == nil && b.just == 2 {
+				bd.Justification = copyBytesPtr([]byte{0x6a, 0x75, 0x73, 0x74})
+			}
 		}
 		rp.bds = append(rp.bds, bd)
 	}
@@ -680,11 +689,15 @@ func c32Panic(c *vcommon.Case, p any, w map[string]any, where string) {
 
 // c32Tree builds main chain m1..mL plus forks.
 func c32Tree(r *vcommon.Rand, L int, forks int, forkLen int) (t *vTree, main []int, fk [][]int) {
-	t = newVTree(r)
+	return c32TreeOpt(r, L, forks, forkLen, nil, true)
+}
+
+func c32TreeOpt(r *vcommon.Rand, L int, forks int, forkLen int, stateRoot *common.Hash, extras bool) (t *vTree, main []int, fk [][]int) {
+	t = newVTreeRoot(r, stateRoot)
 	t.minExt = 1
 	main = []int{0}
 	for i := 1; i <= L; i++ {
-		main = append(main, t.addChild(r, main[i-1], fmt.Sprintf("m%d", i), true))
+		main = append(main, t.addChild(r, main[i-1], fmt.Sprintf("m%d", i), extras))
 	}
 	for k := 0; k < forks; k++ {
 		at := r.Intn(L) // parent on main: 0..L-1
@@ -696,7 +709,7 @@ func c32Tree(r *vcommon.Rand, L int, forks int, forkLen int) (t *vTree, main []i
 		}
 		var f []int
 		for j := 0; j < r.Range(1, forkLen); j++ {
-			p = t.addChild(r, p, fmt.Sprintf("f%d.%d", k, at+1+j), true)
+			p = t.addChild(r, p, fmt.Sprintf("f%d.%d", k, at+1+j), extras)
 			f = append(f, p)
 		}
 		fk = append(fk, f)
@@ -1019,4 +1032,7 @@ func TestVerifC32(t *testing.T) {
 		c.Count("big_scripts", 1)
 		c32Run(c, c32RandomScript(c.R, true))
 	})
+
+	// ---- the same strategy over the REAL blockImporter (zz_verif_c32_real_test.go)
+	c32RealGroups(r)
 }
